@@ -41,7 +41,7 @@ def harnesses():
             out.append(H(f"c17_pcap_set_{n}_{mn}", "C17", tier, f"pcapobj::set({k}, {str(ns).lower()}, |p, v| p.{meth}(v))",
                          f"pcap_set_{n}", f"20 symbolic header bytes after the {mn} magic, assigned value any i64, 1 symbolic compare index", 26))
     # ---- C21 (count of bytes returned / consumed; see pcapio.rs read_prefix for why not the values)
-    for (b, buf, tier, to, req) in ((1, 0, "quick", 600, True), (2, 0, "quick", 600, True), (3, 0, "thorough", 900, True),
+    for (b, buf, tier, to, req) in ((1, 0, "quick", 600, True), (2, 0, "quick", 600, True), (3, 0, "quick", 900, True),
                                     (4, 0, "thorough", 1800, False), (2, 2, "thorough", 1800, False)):
         out.append(H(f"c21_read_b{b}_buf{buf}", "C21", tier, f"read_prefix::<{b}>({buf})", "read_prefix",
                      f"content of symbolic length <= {b} with symbolic bytes, request n any usize (incl. usize::MAX), "
